@@ -11,6 +11,10 @@ Streams
   fresh  batches of obj cases pickled here and unpickled in a FRESH interpreter (subprocess that optionally
          re-runs the same creator.create calls first) which reports a canonical structural dump.
   tb     Toolbox aliases: frozen + call arguments, keyword override, decoration, picklability.
+  tbcls  creator-made classes registered directly as alias functions (with / without frozen arguments), pickled.
+  clash  (inside obj and fresh) pickles are loaded while the same class NAMES are bound to different classes
+         (re-created with other weights / class attributes in this interpreter, or defined by the fresh
+         interpreter itself before loading): the result must be equivalent to the ORIGINAL class.
 """
 import array
 import copy
@@ -149,16 +153,22 @@ def drop_classes(uid):
         delattr(creator, n)
 
 
-def build_classes(d, uid):
+def build_classes(d, uid, variant=False):
+    """variant=True: the SAME names and bases bound to DIFFERENT classes (weights negated, an extra class-level
+    attribute) — what another script, or a later creator.create in this interpreter, may have put there."""
     def mk(name, pybase, **kw):
         full = cname(uid, name)
-        if hasattr(creator, full):
-            delattr(creator, full)
-        creator.create(full, pybase, **kw)
+        if variant:
+            kw["c16_variant"] = "B"
+        with warnings.catch_warnings():
+            warnings.simplefilter("ignore")
+            if hasattr(creator, full) and not variant:
+                delattr(creator, full)
+            creator.create(full, pybase, **kw)      # variant: re-creation over the existing name (RuntimeWarning)
         return getattr(creator, full)
     cl = {}
     fb = base.ConstrainedFitness if d.get("cfit") else base.Fitness
-    cl["Fit"] = mk("Fit", fb, weights=tuple(float(w) for w in d["weights"]))
+    cl["Fit"] = mk("Fit", fb, weights=tuple((-1.0 if variant else 1.0) * float(w) for w in d["weights"]))
     kw = {}
     for name, t in sorted(d.get("inst", {}).items()):
         if t in ("list", "dict", "set"):
@@ -349,7 +359,8 @@ def canon(o, depth=0):
             attrs = [kv for kv in attrs if kv[0] != "constraint_violation"]
             cv = canon(getattr(o, "constraint_violation", "<missing>"), depth + 1)
         attrs = [kv for kv in attrs if kv[0] != "wvalues"]
-        return ["fit", class_sig(t), [repr(w) for w in o.wvalues], bool(o.valid), cv, attrs]
+        return ["fit", class_sig(t), [repr(w) for w in o.wvalues], [repr(v) for v in o.values], bool(o.valid), cv,
+                attrs]
     if isinstance(o, NODE_TYPES):
         return ["node", t.__name__] + [[s, canon(getattr(o, s, "<unset>"), depth + 1)] for s in
                                        sorted(set(getattr(t, "__slots__", ())) | set(getattr(o, "__dict__", {})))]
@@ -817,10 +828,12 @@ def _eval_obj(d, uid, premise):
     if model_ready(d):
         lines.append("C16 clone %s %s %s %d" % (m.ct_text(), m.heap_text(), root, len(chain)))
         expect.append(m.graph_dump(chain))
-    pick = []
+    pick, blobs = [], []
     for p in d.get("protos", PROTOCOLS):
         try:
-            u = pickle.loads(pickle.dumps(x, p))
+            blob = pickle.dumps(x, p)
+            blobs.append((p, blob))
+            u = pickle.loads(blob)
         except Exception as e:  # noqa
             fail("pickle protocol %d: %s: %s" % (p, type(e).__name__, e))
             if model_ready(d):
@@ -834,6 +847,22 @@ def _eval_obj(d, uid, premise):
         if model_ready(d):
             lines.append("C16 pickle %s %s %s same" % (m.ct_text(), m.heap_text(), root))
             expect.append(m.tree_dump(u))
+
+    # ---- 2b. the same pickles loaded while the names are bound to DIFFERENT classes (re-created in between):
+    #          the unpickled object must still be of a class equivalent to the ORIGINAL one
+    if premise and d.get("clash", True):
+        build_classes(d, uid, variant=True)
+        for p, blob in blobs:
+            try:
+                u = pickle.loads(blob)
+            except Exception as e:  # noqa
+                fail("pickle protocol %d, names re-created with other attributes before loading: %s: %s"
+                     % (p, type(e).__name__, e))
+                continue
+            r = check_copy("pickle protocol %d, names re-created with other attributes before loading" % p,
+                           x, u, canon0, sig0, False)
+            if r:
+                fail(r)
 
     # ---- 3. mutation test, both directions
     if premise:
@@ -924,7 +953,8 @@ def eval_fresh(d):
                 if model_ready(sub):
                     lines.append("C16 pickle %s %s %s empty" % (m.ct_text(), m.heap_text(), root))
                     expect.append(a.get("tree", "raised"))
-        return Case(d, lines, expect, orc, tag="fresh/%s/n=%d" % ("recreate" if d.get("recreate", True) else "bare",
+        return Case(d, lines, expect, orc, tag="fresh/%s/n=%d" % ("clash" if d.get("recreate", True) == "clash" else
+                                                                  "recreate" if d.get("recreate", True) else "bare",
                                                                   len(d["cases"])), nontrivial=True)
     finally:
         for u in uids:
@@ -948,7 +978,10 @@ def child_main():
                         ans[pr] = "error %s: %s" % (type(ex).__name__, ex)
                 out.append(ans)
                 continue
-            if req["recreate"]:
+            if req["recreate"] == "clash":
+                build_classes(e["sub"], e["uid"])                      # first definition, then
+                build_classes(e["sub"], e["uid"], variant=True)        # this process's OWN, different classes
+            elif req["recreate"]:
                 build_classes(e["sub"], e["uid"])
             for pr, hx in e["pickles"].items():
                 if hx.startswith("ERR:"):
@@ -1027,7 +1060,58 @@ def eval_tb(d):
                 nontrivial=bool(d["args"] or d["kw"] or d["cargs"] or d["ckw"]))
 
 
+def eval_tbcls(d):
+    """A creator-made class registered directly as the alias' function (toolbox.individual = creator.Individual)."""
+    uid = next_uid()
+    try:
+        with warnings.catch_warnings():
+            warnings.simplefilter("ignore")
+            dd = {"base": d["base"], "weights": d["weights"], "content": d["content"],
+                  "inst": {"fitness": "fit", "log": "list"}, "cattrs": {"label": "x"}}
+            cl = build_classes(dd, uid)
+            Ind, Fit = cl["Ind"], cl["Fit"]
+            content = content_of(dd)
+            needs = d["base"] != "dict"
+            frozen = d["frozen"] and needs
+            tb = base.Toolbox()
+            tb.register("individual", Ind, *([content] if frozen else []))
+            vals = tuple(d["fit"]) if d["fit"] is not None else None
+            tb.register("fit", Fit, *([vals] if (d["frozen"] and vals is not None) else []))
+            call_ind = [] if (frozen or not needs) else [content]
+            call_fit = [] if (d["frozen"] or vals is None) else [vals]
+            want_i = canon(Ind(content) if needs else Ind())
+            want_f = canon(Fit(vals) if vals is not None else Fit())
+            orc = None
+            a = tb.individual(*call_ind)
+            if type(a) is not Ind or canon(a) != want_i:
+                orc = "alias of the individual class builds %r" % (a,)
+            elif canon(tb.fit(*call_fit)) != want_f:
+                orc = "alias of the fitness class builds something else"
+            elif tb.individual.__name__ != "individual" or tb.individual.func is not Ind:
+                orc = "alias lost its name / function"
+            for alias, call, want in (("individual", call_ind, want_i), ("fit", call_fit, want_f)):
+                for p in PROTOCOLS:
+                    if orc:
+                        break
+                    try:
+                        f = pickle.loads(pickle.dumps(getattr(tb, alias), p))
+                        got = f(*call)
+                        if canon(got) != want:
+                            orc = "unpickled alias %r (protocol %d) builds a different object: %s" % (
+                                alias, p, first_diff(want, canon(got)))
+                        elif f.__name__ != alias:
+                            orc = "unpickled alias %r (protocol %d) lost its name" % (alias, p)
+                    except Exception as e:  # noqa
+                        orc = "undecorated alias %r of a created class not picklable with protocol %d: %s: %s" % (
+                            alias, p, type(e).__name__, e)
+            return Case(d, [], [], orc, tag="tbcls/%s/frozen=%s" % (d["base"], bool(d["frozen"])), nontrivial=True)
+    finally:
+        drop_classes(uid)
+
+
 def evaluate(d):
+    if d["k"] == "tbcls":
+        return eval_tbcls(d)
     if d["k"] == "obj":
         return eval_obj(d)
     if d["k"] == "fresh":
@@ -1208,12 +1292,23 @@ def generate(tier, rng, mult):
     rng.shuffle(st)
     # a first fresh-interpreter batch early (so that it is always reached within the budget)
     nb = (60 if thorough else 40)
-    for i in range(0, min(len(st), nb * (6 if thorough else 2)), nb):
+    for i in range(0, min(len(st), nb * (6 if thorough else 3)), nb):
         batch = [dict(s) for s in st[i:i + nb] if model_ready(s) or True]
         batch += [tb_case(rng) for _ in range(5)]
-        yield {"k": "fresh", "recreate": (i // nb) % 2 == 0, "cases": batch, "hashseed": rng.randint(0, 1000)}
+        yield {"k": "fresh", "recreate": [True, "clash", False][(i // nb) % 3], "cases": batch,
+               "hashseed": rng.randint(0, 1000)}
     for _ in range(200 if thorough else 60):
         yield tb_case(rng)
+    for b in BASES:
+        if b == "tree":
+            continue
+        for frozen in (False, True):
+            for rep in range(3 if thorough else 1):
+                yield {"k": "tbcls", "base": b, "weights": [rng.choice([1.0, -1.0]) for _ in range(rng.randint(1, 3))],
+                       "content": content_for(b, rng.choice([0, 2, 3]), rng), "frozen": frozen, "fit": None}
+                w = [rng.choice([1.0, -1.0, 2.0]) for _ in range(rng.randint(1, 3))]
+                yield {"k": "tbcls", "base": b, "weights": w, "content": content_for(b, 2, rng), "frozen": frozen,
+                       "fit": rand_fit(len(w), rng)}
     for s in st:
         yield s
     nrand = (12000 if thorough else 2500) * mult
@@ -1229,7 +1324,8 @@ def generate(tier, rng, mult):
         yield d
         pend.append(d)
         if len(pend) == 50 and (thorough or i < 600):
-            yield {"k": "fresh", "recreate": rng.random() < 0.5, "cases": pend, "hashseed": rng.randint(0, 1000)}
+            yield {"k": "fresh", "recreate": rng.choice([True, False, "clash", "clash"]), "cases": pend,
+                   "hashseed": rng.randint(0, 1000)}
         if len(pend) >= 50:
             pend = []
 
@@ -1246,6 +1342,10 @@ def shrink(d):
         elif cs and cs[0].get("k") == "obj":
             for e in shrink(cs[0]):
                 yield dict(d, cases=[e])
+        return
+    if d["k"] == "tbcls":
+        if d["content"]:
+            yield dict(d, content=d["content"][:-1])
         return
     if d["k"] == "tb":
         for key in ("args", "kw", "cargs", "ckw"):
